@@ -171,7 +171,11 @@ void rsValuesFacet::PruneStructure(const EntityUID target) {
     return;
   } 
   const auto& typeValue = core.GetParse(target).exprType;
-  assert(typeValue.has_value());
+  if (!typeValue.has_value()) {
+    // Note: structure lost its typification (e.g. its base set was erased), no element can be validated
+    ResetFor(target);
+    return;
+  }
   // NOLINTNEXTLINE(bugprone-exception-escape, bugprone-unchecked-optional-access)
   const auto& type = std::get<rslang::Typification>(typeValue.value());
   if (!oldData->IsCollection()) {
